@@ -239,9 +239,10 @@ def build(prop, clean=False):
         if rc != 0:
             res.driver_ok = False
             res.model_ok = False
-        # 2. proofs of this property
-        if prop.proof_module:
-            rc, out = _run(["lake", "build", prop.proof_module], cwd=LEAN)
+        # 2. proofs of this property (its own module and the shared modules it has obligations in)
+        modules = ([prop.proof_module] if prop.proof_module else []) + list(getattr(prop, "extra_proof_modules", []))
+        if modules:
+            rc, out = _run(["lake", "build"] + modules, cwd=LEAN)
             res.output += "\n" + out
             if rc != 0:
                 res.proof_ok = False
@@ -255,6 +256,8 @@ def build(prop, clean=False):
             audit_src = os.path.join(WORK, "Audit_%s.lean" % prop.id)
             with open(audit_src, "w") as f:
                 f.write("import %s\n" % prop.proof_module)
+                for m_ in getattr(prop, "extra_proof_modules", []):
+                    f.write("import %s\n" % m_)
                 for t in prop.theorems + prop.generated_obligations:
                     f.write("#print axioms %s\n" % t)
             rc, out = _run(["lake", "env", "lean", audit_src], cwd=LEAN)
@@ -488,7 +491,20 @@ def shrink(prop, case, still_fails, budget=400, seconds=40):
 
 def load_property(pid):
     mod = importlib.import_module("harness.props.%s" % pid.lower())
-    return mod.PROP
+    prop = mod.PROP
+    # class-attribute table regenerated from the source (harness/extractors/classtable.py): the agreement theorems
+    # of Proofs/ClassTable.lean that concern this property are obligations of its check
+    if not getattr(prop, "_classtable_wired", False):
+        try:
+            from harness.extractors.classtable import OBLIGATIONS
+        except Exception:
+            OBLIGATIONS = {}
+        extra = [t for t in OBLIGATIONS.get(pid, []) if t not in prop.generated_obligations]
+        if extra:
+            prop.generated_obligations = list(prop.generated_obligations) + extra
+            prop.extra_proof_modules = list(getattr(prop, "extra_proof_modules", [])) + ["Proofs.ClassTable"]
+        prop._classtable_wired = True
+    return prop
 
 
 def load_known_findings(pid):
@@ -550,7 +566,8 @@ def run_check(pid, tier, seed):
 
     leanchecker = None
     if tier == "thorough" and b.proof_ok and prop.proof_module:
-        rc, out = _run(["lake", "env", "leanchecker", prop.proof_module], cwd=LEAN, timeout=1800)
+        rc, out = _run(["lake", "env", "leanchecker", prop.proof_module] + list(getattr(prop, "extra_proof_modules", [])),
+                       cwd=LEAN, timeout=1800)
         leanchecker = {"rc": rc, "tail": out[-300:]}
         if rc != 0:
             proof_broken = True
